@@ -179,6 +179,56 @@ def _rewrite_dropargs(text: str, prefix: str, rep_args: str = ""):
     return text, cnt
 
 
+def _rewrite_folds(text: str):
+    """R-fold: `E.iter().fold(INIT, |acc, x| BODY)` -> the definition of Iterator::fold over a slice:
+       `({ let mut vacc = INIT; for x in itf: E.iter() { vacc = { let acc = vacc; BODY }; } vacc })`  (same lines;
+    the loop gets its invariant through the unit's `loops`)."""
+    cnt = 0
+    pos = 0
+    while True:
+        m = mask(text)
+        mm = re.compile(r"(?P<recv>[A-Za-z_][\w.]*)\s*\.iter\(\)\s*\.fold\(").search(m, pos)
+        if not mm:
+            break
+        op = mm.end() - 1
+        cl = match_brace(m, op)
+        inner = text[op + 1:cl]
+        minner = m[op + 1:cl]
+        # split INIT , |acc, x| BODY at the first top-level comma
+        depth = 0
+        k = 0
+        comma = -1
+        while k < len(minner):
+            c = minner[k]
+            if c in "([{":
+                depth += 1
+            elif c in ")]}":
+                depth -= 1
+            elif c == "," and depth == 0:
+                comma = k
+                break
+            k += 1
+        cm = re.match(r"\s*\|\s*(?P<acc>\w+)\s*,\s*(?P<x>\w+)\s*\|", minner[comma + 1:]) if comma >= 0 else None
+        if not cm:
+            pos = mm.end()
+            continue
+        init = inner[:comma]
+        body = inner[comma + 1 + cm.end():].rstrip()
+        if body.endswith(","):
+            body = body[:-1]
+        rep = "({ let mut vacc = %s; for %s in itf: %s.iter() { vacc = { let %s = vacc; %s }; } vacc })" % (
+            init.strip("\n"), cm.group("x"), text[mm.start("recv"):mm.end("recv")], cm.group("acc"), body)
+        old = text[mm.start():cl + 1]
+        need = old.count("\n") - rep.count("\n")
+        if need < 0:
+            pos = mm.end()
+            continue
+        text = text[:mm.start()] + rep + "\n" * need + text[cl + 1:]
+        pos = mm.start() + len(rep)
+        cnt += 1
+    return text, cnt
+
+
 def _rewrite_logs(text: str):
     """R-log: statements `trace!/debug!/info!/warn!/error!(..);` are removed (line count preserved)."""
     cnt = 0
@@ -240,8 +290,10 @@ class Piece:
 
 def _apply_rewrites(text: str, rws: List[Rw], unit: str, log: list) -> str:
     for rw in rws:
-        if rw.kind in ("err", "log", "attrs", "maperr", "letchain", "dropargs"):
-            if rw.kind == "dropargs":
+        if rw.kind in ("err", "log", "attrs", "maperr", "letchain", "dropargs", "fold"):
+            if rw.kind == "fold":
+                text, cnt = _rewrite_folds(text)
+            elif rw.kind == "dropargs":
                 text, cnt = _rewrite_dropargs(text, rw.pat, rw.rep)
             elif rw.kind == "letchain":
                 text, cnt = _rewrite_letchains(text)
@@ -484,7 +536,14 @@ def _splice_body(u: Unit, body: str, file: str, first_line: int) -> List[Piece]:
     m = mask(body)
     inserts = []  # (offset, text, label)
     heads = loop_headers(m)
+    loop_aids_moot = False
+    if not heads and (u.loops or any(h[0] in ("after_loop", "loop_start") for h in u.hints)):
+        # the body has NO loop any more (e.g. a fold / loop replaced by a closed form): invariants and loop hints are
+        # proof aids for loops that do not exist -- dropped; straight-line code is decided without them
+        loop_aids_moot = True
     for ordinal, inv in sorted(u.loops.items()):
+        if loop_aids_moot:
+            continue
         if ordinal < 1 or ordinal > len(heads):
             raise LostAnchor("%s: loop #%d not found (body has %d loops)" % (u.name, ordinal, len(heads)))
         _, brace = heads[ordinal - 1]
@@ -492,6 +551,8 @@ def _splice_body(u: Unit, body: str, file: str, first_line: int) -> List[Piece]:
     if len(u.loops) and False:
         pass
     for where, stmt, text in u.hints:
+        if where in ("after_loop", "loop_start") and loop_aids_moot:
+            continue
         if where == "after_loop":
             ordinal = int(stmt)
             if ordinal < 1 or ordinal > len(heads):
